@@ -716,8 +716,7 @@ class Ref(object):
             self.out.append((n, 'close'))
             return
         cls = r['cls']
-        lost = ('table-part-context-background-lost' in self.quirks and cls in ('TableRowBox', 'TableRowGroupBox')) or \
-            ('grid-context-background-lost' in self.quirks and cls in ('GridBox', 'InlineGridBox'))
+        lost = 'table-part-context-background-lost' in self.quirks and cls in ('TableRowBox', 'TableRowGroupBox')
         if cls not in ('InlineBox', 'PageBox') and not lost:
             self.emit(n, 'bg')
             self.emit(n, 'border' if cls != 'TableCellBox' else 'cell-border')
@@ -820,7 +819,7 @@ def visible_tokens(boxes, order, canvas, quirks=()):
                 for row in boxes[g]['kids']:
                     parts.append(row)
                     parts.extend(boxes[row]['kids'])
-            if any(boxes[x]['visible'] for x in parts) or 'hidden-table-collapsed-borders' in quirks:
+            if any(boxes[x]['visible'] for x in parts):
                 toks.append((n, 'collapsed', None))
             continue
         if not r['visible']:
@@ -1274,8 +1273,7 @@ def prepare_tokens(page_rec, order, quirks=()):
     return toks, toks_rest, canvas
 
 
-QUIRKS = ('z-index-on-non-positioned', 'table-part-context-background-lost', 'collapsed-cell-context-border',
-          'hidden-table-collapsed-borders', 'grid-context-background-lost')
+QUIRKS = ('z-index-on-non-positioned', 'table-part-context-background-lost', 'collapsed-cell-context-border')
 
 
 def ink_rows(boxes):
@@ -1381,13 +1379,24 @@ WITNESSES = {
     'table-part-context-background-lost':
         '<table id="e2" style="background:#700"><tr id="e3" style="opacity:.5;background:#a00">'
         '<td id="e4" style="background:#d00;color:#e00">ab</td></tr></table>',
-    'grid-context-background-lost':
-        '<div id="e2" style="display:grid;background:#700;border:2px solid #900;opacity:.5">'
-        '<div id="e3" style="background:#a00;color:#b00">ab</div></div>',
     'z-index-on-non-positioned':
         '<div id="e2" style="height:10px;background:#700"></div>'
         '<div id="e3" style="height:10px;background:#a00;opacity:.9;z-index:-1;margin-top:-5px"></div>'
         '<div id="e4" style="height:10px;background:#d00;margin-top:-5px"></div>',
+}
+# former findings, fixed in /repo: judged like any other document (any deviation is a plain violation)
+FIXED_DOCS = {
+    'grid-context':          # F104, fixed by 22caa46
+        '<div id="e2" style="display:grid;background:#700;border:2px solid #900;opacity:.5">'
+        '<div id="e3" style="background:#a00;color:#b00">ab</div></div>'
+        '<div id="e4" style="color:#e00">cd <span id="e5" style="display:inline-grid;background:#010;border:1px solid #210">'
+        '<div id="e6" style="background:#310;color:#410">ef</div></span></div>'
+        '<div id="e7" style="display:grid;background:#610;position:relative;color:#710">gh</div>',
+    'hidden-collapsed-table':   # F107, fixed by d858293
+        '<table id="e2" style="visibility:hidden;border-collapse:collapse;border:4px solid #900;background:#700">'
+        '<tr id="e3"><td id="e4" style="border:2px solid #f00;color:#e00">ab</td></tr></table>'
+        '<table id="e5" style="visibility:hidden;border-collapse:collapse;border:3px solid #210;background:#010">'
+        '<tr id="e6"><td id="e7" style="visibility:visible;border:2px solid #810;background:#610;color:#710">cd</td></tr></table>',
 }
 WITNESS_CSS = ('<style>@page{size:100px;margin:0}html{background:none}body{margin:0;font-family:weasyprint;'
                'font-size:10px;line-height:10px;color:#500}table{border-spacing:0}td{padding:0}</style>')
@@ -1601,6 +1610,9 @@ def check(run):
     for k in range(n_rdocs):
         html, feats = gen_radius_doc(rng)
         docs.append(dict(html=html, features=feats, profile='radius'))
+    for name, body in sorted(FIXED_DOCS.items()):
+        docs.append(dict(html='<html id="e0">%s<body id="e1">%s</body></html>' % (WITNESS_CSS, body),
+                         features=['fixed:' + name], profile='fixed'))
     for name, body in sorted(WITNESSES.items()):
         docs.append(dict(html='<html id="e0">%s<body id="e1">%s</body></html>' % (WITNESS_CSS, body), features=['witness:' + name],
                          profile='witness', witness=name))
@@ -1671,7 +1683,7 @@ def check(run):
                 if codes is None:
                     run.oblige('diag:once_why', False, 'cannot evaluate once_why_page')
                     break
-                rest = [(b, c) for b, c in codes if not (c == 4 and (b in lost_rows or b in lost_grid))]
+                rest = [(b, c) for b, c in codes if not (c == 4 and b in lost_rows)]
                 if rest:
                     run.fail('a box is not painted exactly once (box, code): %s' % rest[:5],
                              {'stream': 'frompage-render', 'html': d['html'], 'page': pi, 'codes': rest[:20]})
@@ -1680,10 +1692,6 @@ def check(run):
                         run.fail('table part painted as a context: backgrounds never painted (boxes %s)' % [b for b, _ in codes][:8],
                                  {'stream': 'frompage-render', 'html': d['html'], 'page': pi},
                                  signature='c17:table-part-context-background-lost')
-                    if any(b in lost_grid for b, c in codes):
-                        run.fail('grid container painted as a context: background never painted',
-                                 {'stream': 'frompage-render', 'html': d['html'], 'page': pi},
-                                 signature='c17:grid-context-background-lost')
         run.count('frompage-render', len(page_cases),
                   [(len(pg['nodes']) // 20, tuple(sorted(set(i['kind'] for i, _ in pg['nodes'])))) for _, _, pg in meta],
                   samples=[meta[0][0]['html'][:800]] if meta else [])
